@@ -4,6 +4,7 @@ import (
 	"os"
 	"path/filepath"
 	"strings"
+	"unicode/utf8"
 )
 
 const dataPath = "data"
@@ -16,6 +17,11 @@ func checkDBName(db string) error {
 		return ErrDBNotSelected
 	}
 	if db == "." || db == ".." || strings.ContainsAny(db, "/\\\x00") || strings.ContainsRune(db, filepath.Separator) {
+		return ErrDBNameInvalid
+	}
+	// lower-casing turns every byte that is not UTF-8 into U+FFFD: names that
+	// differ only in such bytes would be one database
+	if !utf8.ValidString(db) {
 		return ErrDBNameInvalid
 	}
 	return nil
